@@ -63,6 +63,12 @@ MENU = [
     ("fin", {"rates": [0]}),
     ("fin", {"rates": [6, 6.0015, 12]}),
     ("fin", {"rates": [0.0005, 5]}),
+    # the documented argument is an *iterable*: one-shot iterators, tuples, sets, arrays (0 late / absent)
+    ("fin", {"rates": [8, 16, 0, 24], "as": "gen"}),
+    ("fin", {"rates": [10, 20], "as": "iter"}),
+    ("fin", {"rates": [6, 12, 6], "as": "tuple"}),
+    ("fin", {"rates": [8.0, 16.0], "as": "ndarray"}),
+    ("fin", {"rates": [9, 18, 27], "as": "set"}),
 ]
 MENU_THOROUGH = [
     ("cont", {"min": 1.25, "max": 80}),
@@ -83,7 +89,19 @@ def build(kind, p, sid="PS-X"):
         return EVSE(sid, max_rate=p["max"], min_rate=p["min"])
     if kind == "dead":
         return DeadbandEVSE(sid, deadband_end=p["end"], max_rate=p["max"])
-    return FiniteRatesEVSE(sid, list(p["rates"]))
+    rates = list(p["rates"])
+    form = p.get("as", "list")
+    if form == "gen":
+        rates = (r for r in rates)
+    elif form == "iter":
+        rates = iter(rates)
+    elif form == "tuple":
+        rates = tuple(rates)
+    elif form == "ndarray":
+        rates = np.array(rates)
+    elif form == "set":
+        rates = set(rates)
+    return FiniteRatesEVSE(sid, rates)
 
 
 def allowable(kind, p):
@@ -287,10 +305,15 @@ def execute(item, only=None):
                 for occ in (False, True):
                     for entry in ("set_pilot", "update_pilots"):
                         probes.append((b + o, occ, entry))
+        # not-a-number lies within 1e-3 A of nothing: refused by every EVSE, like any other value outside the set
+        for occ in (False, True):
+            for entry in ("set_pilot", "update_pilots"):
+                probes.append((float("nan"), occ, entry))
+                probes.append((float("-inf"), occ, entry))
     elif only.get("pilot") is not None:
         probes = [(only["pilot"], only["occ"], only["entry"])]
     for pilot, occ, entry in probes:
-        d = dist(pilot, ivs)
+        d = dist(pilot, ivs) if not math.isnan(pilot) else math.inf
         if abs(d - 1e-3) < 1e-8:
             stats["skipped"] += 1
             continue
@@ -300,6 +323,8 @@ def execute(item, only=None):
         stats["outcomes"].add((kind, want, bool(acc_), occ, entry))
         if abs(d - 1e-3) <= 2e-3:
             stats["nt"].add((item["idx"], round(pilot, 9), occ, entry))
+        if math.isnan(pilot):
+            after = None if (after is not None and isinstance(after, float) and math.isnan(after)) else after
         pr = {"pilot": pilot, "occ": occ, "entry": entry}
         side = "vacant" if not occ else "occupied"
         if acc_ != want:
